@@ -24,6 +24,9 @@ type SOp struct {
 	How  string `json:"how,omitempty"`  // reopen: new | fs | tar
 	Var  int    `json:"var,omitempty"`  // tag: the descriptor carries the annotation variant=<Var> (0 = plain)
 	From string `json:"from,omitempty"` // retag: Tag(Resolve(From), Ref), as promoting a tag does
+	// FailMut: the k-th mutating disk operation of this store operation fails with EIO
+	// (OCI layout, C08); 0 = no disk fault
+	FailMut int `json:"fail_mut,omitempty"`
 }
 
 func (o SOp) String() string {
